@@ -15,6 +15,9 @@ pub struct PathSelector {
     included_names: Vec<Pattern>,
     included_paths: Vec<Pattern>,
     excluded_paths: Vec<Pattern>,
+    /// The input paths that lead through symbolic links: what they resolve to, and the path as
+    /// given. The scanned paths start with the former, the patterns may describe the latter.
+    root_aliases: Vec<(String, String)>,
 }
 
 impl PathSelector {
@@ -25,7 +28,49 @@ impl PathSelector {
             included_names: vec![],
             included_paths: vec![],
             excluded_paths: vec![],
+            root_aliases: vec![],
         }
+    }
+
+    /// Tells the selector the input paths of the scan.
+    /// A file below an input path that leads through a symbolic link is reported by its
+    /// resolved path. It is selected or excluded also by the patterns that match the path
+    /// it has below the input path as given.
+    pub fn input_paths(mut self, paths: impl IntoIterator<Item = Path>) -> PathSelector {
+        for path in paths {
+            let mut given = std::path::PathBuf::new();
+            for component in self.base_dir.resolve(path).to_path_buf().components() {
+                match component {
+                    std::path::Component::CurDir => {}
+                    std::path::Component::ParentDir => {
+                        given.pop();
+                    }
+                    other => given.push(other),
+                }
+            }
+            let given = Path::from(given);
+            let resolved = given.canonicalize();
+            if resolved != given {
+                self.root_aliases
+                    .push((resolved.to_string_lossy(), given.to_string_lossy()));
+            }
+        }
+        self
+    }
+
+    /// Returns the given path together with the other names it has below the input paths
+    /// that lead through symbolic links.
+    fn names_of(&self, path: String) -> Vec<String> {
+        let mut names = Vec::with_capacity(1);
+        for (resolved, given) in self.root_aliases.iter() {
+            if let Some(rest) = path.strip_prefix(resolved.as_str()) {
+                if rest.is_empty() || rest.starts_with(MAIN_SEPARATOR) {
+                    names.push(format!("{given}{rest}"));
+                }
+            }
+        }
+        names.push(path);
+        names
     }
 
     pub fn include_names(mut self, pat: Vec<Pattern>) -> PathSelector {
@@ -57,11 +102,17 @@ impl PathSelector {
                 .map(|s| s.to_string_lossy().to_string())
                 .unwrap_or_default();
             let name = name.as_ref();
-            let path = path.to_string_lossy();
+            let paths = self.names_of(path.to_string_lossy());
             (self.included_names.is_empty() || self.included_names.iter().any(|p| p.matches(name)))
                 && (self.included_paths.is_empty()
-                    || self.included_paths.iter().any(|p| p.matches(&path)))
-                && self.excluded_paths.iter().all(|p| !p.matches(&path))
+                    || self
+                        .included_paths
+                        .iter()
+                        .any(|p| paths.iter().any(|path| p.matches(path))))
+                && self
+                    .excluded_paths
+                    .iter()
+                    .all(|p| paths.iter().all(|path| !p.matches(path)))
         })
     }
 
@@ -72,19 +123,16 @@ impl PathSelector {
     /// 2. it doesn't match any of the exclude filters ending with `**` pattern.
     pub fn matches_dir(&self, path: &Path) -> bool {
         self.with_absolute_path(path, |path| {
-            let mut path = path.to_string_lossy();
-            if !path.ends_with(MAIN_SEPARATOR) {
-                path.push(MAIN_SEPARATOR);
-            }
+            let paths = self.dir_names_of(path);
             (self.included_paths.is_empty()
                 || self
                     .included_paths
                     .iter()
-                    .any(|p| p.matches_partially(&path)))
+                    .any(|p| paths.iter().any(|path| p.matches_partially(path))))
                 && self
                     .excluded_paths
                     .iter()
-                    .all(|p| !p.matches_subtree(&path))
+                    .all(|p| paths.iter().all(|path| !p.matches_subtree(path)))
         })
     }
 
@@ -95,14 +143,22 @@ impl PathSelector {
     /// ending with `**` pattern can rule it out.
     pub fn matches_dir_following_links(&self, path: &Path) -> bool {
         self.with_absolute_path(path, |path| {
-            let mut path = path.to_string_lossy();
-            if !path.ends_with(MAIN_SEPARATOR) {
-                path.push(MAIN_SEPARATOR);
-            }
+            let paths = self.dir_names_of(path);
             self.excluded_paths
                 .iter()
-                .all(|p| !p.matches_subtree(&path))
+                .all(|p| paths.iter().all(|path| !p.matches_subtree(path)))
         })
+    }
+
+    /// Returns the names of a directory, each with the separator at the end
+    fn dir_names_of(&self, path: &Path) -> Vec<String> {
+        let mut names = self.names_of(path.to_string_lossy());
+        for name in names.iter_mut() {
+            if !name.ends_with(MAIN_SEPARATOR) {
+                name.push(MAIN_SEPARATOR);
+            }
+        }
+        names
     }
 
     /// Executes given code with a reference to an absolute path.
